@@ -94,9 +94,10 @@ PROPS["C04"] = {
     "rule": ("unit = one fsck run (quiescent state of a sequential history, or recovered crash image). Non-trivial: the state has >=3 directories and >=1 indirect block, or the crash image contains a half-freed inode. "
              "distinct = FNV hash of the history (sequential) or of (program, crash point, variant)."),
     "assumptions": CRASH_ASSUMPTIONS,
-    "required_classes": ["quiescent_states_checked", "crash_images", "crash_images_with_half_freed_inode", "programs_ending_with_the_free_of_a_dense_file"],
+    "required_classes": ["big_disk_case_allocating_beyond_the_first_bitmap_block", "quiescent_states_checked", "crash_images", "crash_images_with_half_freed_inode", "programs_ending_with_the_free_of_a_dense_file"],
     "units": [
         {"test": "^TestC04Seq$", "quick": {"checks": 60, "shards": 4}, "thorough": {"checks": 800, "shards": 8, "steps": 60}},
+        {"test": "^TestC04BigDisk$", "quick": {"checks": 4, "shards": 4}, "thorough": {"checks": 60, "shards": 8}},
         {"test": "^TestC04Full$", "quick": {"checks": 40, "shards": 4, "steps": 40}, "thorough": {"checks": 500, "shards": 8, "steps": 60}},
         {"test": "^TestC04Crash$", "quick": {"checks": 5, "shards": 2, "procs": 5, "timeout": 600},
          "thorough": {"checks": 24, "shards": 4, "procs": 4, "timeout": 7200}},
